@@ -87,6 +87,16 @@ static void op_life(const V &a, V &r) {
     bootsNOT(&c[4], &c[0], ck); if (bootsSymDecrypt(&c[4], sk) != 0) wrong++;
     bootsCOPY(&c[5], &c[1], ck); if (bootsSymDecrypt(&c[5], sk) != 0) wrong++;
     bootsCONSTANT(one, 1, ck); if (bootsSymDecrypt(one, sk) != 1) wrong++;
+    // gates on constants (noiseless trivial inputs: every mask coefficient is zero, through blind rotation, extraction and key switch), into a
+    // fresh result object and into one that was used before; the results are decrypted and exported (every word of them is read)
+    { LweSample *k0 = new_gate_bootstrapping_ciphertext(P), *k1 = new_gate_bootstrapping_ciphertext(P), *fresh = new_gate_bootstrapping_ciphertext(P);
+      bootsCONSTANT(k0, 0, ck); bootsCONSTANT(k1, 1, ck);
+      bootsNAND(fresh, k0, k1, ck); if (bootsSymDecrypt(fresh, sk) != 1) wrong++;
+      bootsXOR(&c[3], k1, k1, ck); if (bootsSymDecrypt(&c[3], sk) != 0) wrong++;
+      bootsMUX(&c[4], k1, k0, k1, ck); if (bootsSymDecrypt(&c[4], sk) != 0) wrong++;
+      bootsNOT(&c[5], k0, ck); bootsAND(&c[5], &c[5], k1, ck); if (bootsSymDecrypt(&c[5], sk) != 1) wrong++;
+      { FILE *F = tmpfile(); export_gate_bootstrapping_ciphertext_toFile(F, fresh, P); export_gate_bootstrapping_ciphertext_toFile(F, &c[4], P); fclose(F); }
+      delete_gate_bootstrapping_ciphertext(fresh); delete_gate_bootstrapping_ciphertext(k1); delete_gate_bootstrapping_ciphertext(k0); }
     // special values of the rounded input: body that rounds to barb = 0, mask coefficients that round to 0 (skipped CMux steps),
     // barb = N exactly (the output only needs to be computed from initialised memory; its bit is not specified at the boundary)
     { const int n = P->in_out_params->n;
